@@ -168,7 +168,78 @@ def check_storage(case, a, snap, x, clock, out, portf_T):
     return moved
 
 
+def maxdur_admission(rng, tier, case, clause='storage.max_hold_pattern_admission', force_unequal=False):
+    """Exhaustive workload for the maximum holding time: one storage (empty at start and end, no inflow) with max_store_duration on a grid of T <= 8 steps
+    builds its problem once; EVERY pattern in {0,1}^T is pinned on the 'level is non-zero' booleans and HiGHS decides feasibility of the real rows. Model: a
+    pattern is admissible iff every maximal run of ones lasts (sum of the REAL step lengths, UTC clock) at most the limit. Disagreement in either direction -
+    a holding time beyond the limit admitted, or one within the limit excluded - is a violation."""
+    import itertools
+    import eaopack.assets as EA
+    from eaopack.basic_classes import Node, Timegrid
+    from .. import solve
+    from ..spec import build_timegrid
+    T = 6 if tier == 'quick' else 8
+    if force_unequal or rng.random() < 0.4:
+        for _ in range(30):
+            g = gen.gen_grid(rng, dst=True, steps=(T, T))
+            if g['freq'] == 'd':
+                break
+        pts = gen.grid_points(g)
+        if len(pts) > T:
+            g['end'] = gen.naive_str(pts[T])
+    else:
+        g = gen.gen_grid(rng, freqs=['h', '2h', '30min', 'd'], steps=(T, T), tzs=[None, 'CET'])
+    ck = Clock(g)
+    if ck.T != T:
+        case.reject('grid with %d steps' % ck.T); return
+    uneq = bool(np.ptp(ck.dt) > 1e-12)
+    nominal = float(np.median(ck.dt))
+    md = float(gen.pick(rng, [1., 2., 2., 3., 1.5, 2.02, 0.98 * 2])) * nominal          # (limits on, between and just beside whole numbers of steps)
+    params = {'grid': g, 'max_store_duration': md, 'dt': [float(x) for x in ck.dt]}
+    case.key = env.spec_key(params); case.sample = params; case.spec = params
+    case.feature('maxdur_admission', 'unequal_steps' if uneq else 'equal_steps', 'freq:%s/%s' % (g['freq'], g['unit']))
+    with attach.recording() as rec, env.quiet():
+        try:
+            f = gen.UNIT_F[g['unit']]
+            a = EA.Storage(name='S', nodes=Node('n'), cap_in=5. * f, cap_out=5. * f, size=10., start_level=0., end_level=0., max_store_duration=md)
+            a.setup_optim_problem({}, build_timegrid(g))
+        except Exception as e:
+            case.check('storage.max_hold_setup_works', False, params=params, error='%s: %s' % (type(e).__name__, str(e)[:150])); return
+    snap = rec.of('asset_setup')[-1].snap
+    mp = snap.mapping
+    bl = mp[mp['bool'].fillna(False).astype(bool)] if 'bool' in mp.columns else mp.iloc[0:0]
+    bvars = np.asarray(bl.sort_values('time_step').index, int)
+    if len(bvars) != T:
+        case.check('storage.max_hold_boolean_per_step', False, params=params, n=len(bvars)); return
+    excluded = 0
+    for p in itertools.product([0, 1], repeat=T):
+        pa = np.array(p, float)
+        l = snap.l.copy(); u = snap.u.copy(); l[bvars] = pa; u[bvars] = pa
+        sres = solve.solve_op(snap, extra_l=l, extra_u=u, time_limit=20.)
+        if sres['status'] == 'other':
+            case.inconc('reference solver undecided'); continue
+        fe = sres['status'] == 'optimal'
+        mo = True; i = 0
+        while i < T:
+            if p[i] == 1:
+                j = i
+                while j < T and p[j] == 1:
+                    j += 1
+                if float(ck.dt[i:j].sum()) > md * (1 + 1e-12) + 1e-12:
+                    mo = False
+                i = j
+            else:
+                i += 1
+        if not mo:
+            excluded += 1
+        case.check(clause, fe == mo, nonvacuous=True, params=params, pattern=list(p), eao_admits=bool(fe), model_admits=bool(mo))
+    case.stats['patterns'] += 2 ** T
+    case.nontrivial = excluded > 0
+
+
 def run_case(rng, tier, case):
+    if rng.random() < 0.1:
+        return maxdur_admission(rng, tier, case)
     spec, mode = gen_case(rng)
     case.feature('mode:' + mode)
     for t in gen.asset_types(spec):
